@@ -6,7 +6,11 @@ CONSTANTS
   Entries <- MCEntries
   Random <- MCRandom
   Seedable <- MCSeedRand
+  Objs <- MCObjs
+  ObjSeed <- MCObjSeed
+  ObjEntries <- MCSeedRand
   MaxOps = 4
   Variant = "spec"
 INVARIANT NoWitnessInt
 INVARIANT NoWitnessTwins
+INVARIANT NoWitnessObj
